@@ -234,7 +234,12 @@ func genCtr(t *rapid.T, o genOpts, topo *vfkit.Topo, qos string, name string) *h
 			c.Cpus = vfkit.NewIDSet(on[rapid.IntRange(0, len(on)-1).Draw(t, "presetCpu")]).String()
 		}
 		if len(nodes) > 0 && rapid.Bool().Draw(t, "presetMems") {
-			c.Mems = vfkit.NewIDSet(nodes[rapid.IntRange(0, len(nodes)-1).Draw(t, "presetMem")]).String()
+			ms := vfkit.NewIDSet(nodes[rapid.IntRange(0, len(nodes)-1).Draw(t, "presetMem")])
+			// (a runtime-given set may span several nodes: the allocator then tracks a multi-node zone)
+			for k := rapid.SampledFrom([]int{0, 0, 1, 2}).Draw(t, "presetMemExtra"); k > 0; k-- {
+				ms.Add(nodes[rapid.IntRange(0, len(nodes)-1).Draw(t, "presetMem")])
+			}
+			c.Mems = ms.String()
 		}
 	}
 	return c
